@@ -43,160 +43,78 @@ def run(model: Model, rep: Report, tier: str) -> None:
         "Decides this structure; legitimacy of the counterfactual graph (C18's undecided core) and the value identity are not decided."
     )
     rep.trusted_base = ["Shpitser & Pearl 2008, Theorem (ID* soundness)", "C18 structural rules (re-run)", "C14"]
-    rep.floors = {"R7.1": 6, "R7.2": 2, "R7.3": 3, "R7.4": 1, "R7.5": 1, "R6.4": 2}
-    sa = SetAlg()
+    rep.floors = {"R7.1": 1, "R7.2": 3, "R7.3": 5, "R7.4": 1, "R7.5": 3, "R6.4": 2}
     V = ("cls", VARIABLE)
-    # ---------------------------------------------------------------- R7.1
-    helpers = {f"{IS}.{x}" for x in ("violates_axiom_of_effectiveness", "remove_event_tautologies", "id_star_line_6", "get_conflicts", "id_star_line_9")} | {
-        f"{CG}.make_counterfactual_graph", f"{CG}.is_not_self_intervened"}
-    f = model.func(f"{IS}.id_star")
-    ev = _ev(model, prims=helpers)
-    g, e = typed(ev, "graph", ("cls", NXMG)), typed(ev, "event", EVT)
-    paths = ev.run(f, {"graph": g, "event": e})
-    t_event = sa.cond(("truth", e))
-    viol = sa.cond(("call", f"{IS}.violates_axiom_of_effectiveness", (), (("event", e),)))
-    red = ("call", f"{IS}.remove_event_tautologies", (), (("event", e),))
-    changed = f_not(sa.eq_atom(red, e))
-    mcg = ("call", f"{CG}.make_counterfactual_graph", (), (("event", e), ("graph", g)))
-    incons = sa.cond(("isnone", ("index", mcg, const(1))))
+    G = ("cls", NXMG)
+    IV = ("cls", "y0.dsl.Intervention")
+    from ..refcmp import load_reference, run_table
+    from .common import graph_rewrite, rewriter
 
-    def guard(p):
-        return f_and(*[sa.cond(c) for c in p.conds])
+    if "yvref.c07" not in model.modules:
+        load_reference(model, "yvref.c07", "c07_ref.py")
+    sa = SetAlg(rewriter(graph_rewrite))
+    helpers = {f"{IS}.{x}" for x in (
+        "violates_axiom_of_effectiveness", "remove_event_tautologies", "is_redundant_counterfactual", "id_star_line_6", "get_free_variables",
+        "get_events_of_each_district", "get_events_of_district", "_get_node_event", "get_conflicts", "get_cf_interventions", "get_evidence",
+        "id_star_line_9", "ConflictUnidentifiable")} | {f"{CG}.make_counterfactual_graph", f"{CG}.is_not_self_intervened"}
 
-    def same(p, fm):
-        return compare(guard(p), fm)[0]
+    def mk(model, prims):
+        return lambda: _ev(model, prims=prims, pm={"__neg__", "__pos__"})
 
-    def implies(p, fm):
-        return compare(f_and(guard(p), f_not(fm)), False)[0]
+    def cons(f, role):
+        return construct(f, role)
 
-    checks = []
-    p1 = [p for p in paths if p.kind == "return" and is_ctor(p.value, "One")]
-    checks.append(("line1-empty-event", len(p1) == 1 and same(p1[0], f_not(t_event)), "the empty event must get probability One, and only it"))
-    p2 = [p for p in paths if p.kind == "return" and is_ctor(p.value, "Zero")]
-    ok = len(p2) == 2 and any(same(p, f_and(t_event, viol)) for p in p2) and any(same(p, f_and(t_event, f_not(viol), f_not(changed), incons)) for p in p2)
-    checks.append(("line2-and-5-zero", ok, "Zero must be returned exactly for an effectiveness violation (line 2) and for an inconsistent counterfactual graph (line 5), in this order"))
-    p3 = [p for p in paths if p.kind == "return" and p.value[0] == "recurse" and p.value[1] == f"{IS}.id_star" and len(p.value[2]) == 2 and p.value[2][1] == red]
-    checks.append(("line3-tautologies", len(p3) == 1 and same(p3[0], f_and(t_event, f_not(viol), changed)) and p3[0].value[2][0] == g,
-                   "tautologies must be removed after the effectiveness test and the recursion must be on the reduced event and the original graph"))
-    cfg = ("index", mcg, const(0))
-    newe = ("index", mcg, const(1))
-    p6 = [p for p in paths if p.kind == "return" and p.value[0] == "call" and str(p.value[1]).endswith("Sum.safe")]
-    ok = len(p6) == 1
-    if ok:
-        kw = kwargs_of(p6[0].value)
-        l6 = ("call", f"{IS}.id_star_line_6", (), (("cf_graph", cfg), ("event", newe)))
-        prod = kw.get("expression")
-        ok = kw.get("ranges") == ("index", l6, const(0)) and prod[0] == "call" and str(prod[1]).endswith("Product.safe")
-        if ok:
-            c = kwargs_of(prod).get("expressions")
-            ok = c[0] == "comp" and len(c[3]) == 1 and c[3][0][1] == ("meth", ("index", l6, const(1)), "values", (), ()) and c[2][0] == "recurse" and c[2][2] == (g, c[3][0][0])
-        ok = ok and any(c[0] == "not" and any(s[0] == "meth" and s[2] == "is_connected" for s in subterms(c)) for c in p6[0].conds)
-    checks.append(("line6-decomposition", ok, "line 6 must be Σ_{free variables} Π_{districts} ID*(G, event of the district) when the non-self-intervened part of the counterfactual graph is disconnected, recursing on the ORIGINAL graph"))
-    p8 = [p for p in paths if p.kind == "raise" and exc_name(p) == "ConflictUnidentifiable"]
-    checks.append(("line8-conflict", len(p8) == 1 and any(c[0] == "truth" and c[1][0] == "call" and c[1][1] == f"{IS}.get_conflicts" for c in p8[0].conds),
-                   "a conflict between a subscript and the evidence must refuse (Unidentifiable), after the connectivity test"))
-    p9 = [p for p in paths if p.kind == "return" and p.value[0] == "call" and p.value[1] == f"{IS}.id_star_line_9"]
-    ok = len(p9) == 1 and any(c[0] == "not" and c[1][0] == "truth" and c[1][1][0] == "call" and c[1][1][1] == f"{IS}.get_conflicts" for c in p9[0].conds)
-    if ok:
-        sub = kwargs_of(p9[0].value).get("cf_graph")
-        ok = sub[0] == "meth" and sub[2] == "subgraph" and sub[1] == cfg
-    checks.append(("line9-base-case", ok, "the base case must be reached only without conflicts, on the non-self-intervened part of the counterfactual graph"))
-    others = [p for p in paths if p.kind == "raise" and exc_name(p) not in ("ConflictUnidentifiable",)]
-    dead = all(any(c[0] == "le" and c[1][0] == "len" for c in p.conds) for p in others)
-    checks.append(("no-other-failure", dead, "id_star can fail with something other than Unidentifiable: " + ", ".join(exc_name(p) for p in others)))
-    for name, ok, why in checks:
-        (rep.proven if ok else rep.refuted)("R7.1", construct(f, name), "" if ok else why, loc(f))
-    # ---------------------------------------------------------------- R7.2 polarity
-    f2 = model.func(f"{IS}.violates_axiom_of_effectiveness")
-    ev = _ev(model)
-    e2 = typed(ev, "event", EVT)
-    r2 = return_paths(ev.run(f2, {"event": e2}))
-    f3 = model.func(f"{IS}.is_redundant_counterfactual")
-    ev = _ev(model)
-    vv, val = typed(ev, "variable", V), typed(ev, "value", ("cls", "y0.dsl.Intervention"))
-    r3_all = return_paths(ev.run(f3, {"variable": vv, "value": val}))
-    r3 = [r for r in r3_all if r.value[0] in ("any", "all")] or [r for r in r3_all if any(c[0] in ("iter-elem", "forall-not") for c in r.conds)]
-
-    def polarity(t):
-        """body of any(...) as (uses same base?, star relation)"""
-        if t[0] != "any":
-            return None
-        body = t[1][2]
-        parts = body[1:] if body[0] == "and" else (body,)
-        base_eq = [p for p in parts if p[0] == "eq" and all(x[0] == "meth" and x[2] == "get_base" for x in p[1:])]
-        star = [p for p in parts if p[0] in ("eq", "ne") and all(x[0] == "attr" and x[2] == "star" for x in p[1:])]
-        if len(base_eq) != 1 or len(star) != 1 or len(parts) != 2:
-            return None
-        return star[0][0]
-
-    from .common import quantifier_of
-    from ..symeval import bool_paths
-    q2 = r2[0].value if len(r2) == 1 else quantifier_of(bool_paths(r2))
-    q3 = r3[0].value if len(r3) == 1 else quantifier_of(bool_paths(r3))
-    pol2 = polarity(q2) if q2 is not None else None
-    pol3 = polarity(q3) if q3 is not None else None
-    (rep.proven if pol2 == "ne" else rep.refuted)("R7.2", construct(f2, "different-value"), "" if pol2 == "ne" else
-                                                   "line 2 must fire iff some subscript has the same base variable as the event's value and a DIFFERENT value", loc(f2))
-    (rep.proven if pol3 == "eq" else rep.refuted)("R7.2", construct(f3, "equal-value"), "" if pol3 == "eq" else
-                                                   "line 3 must remove iff some subscript has the same base variable as the event's value and the SAME value", loc(f3))
-    # ---------------------------------------------------------------- R7.3 line 6 pieces
-    f = model.func(f"{IS}.get_free_variables")
-    ev = _ev(model, prims={f"{CG}.is_not_self_intervened"})
-    g6, e6 = typed(ev, "cf_graph", ("cls", NXMG)), typed(ev, "event", EVT)
-    r = return_paths(ev.run(f, {"cf_graph": g6, "event": e6}))
-    ok = len(r) == 1 and r[0].value[0] == "diff"
-    if ok:
-        a, b = r[0].value[1], r[0].value[2]
-        ok = a[0] == "comp" and a[2][0] == "meth" and a[2][2] == "get_base" and any(s[0] == "call" and s[1] == f"{CG}.is_not_self_intervened" for s in subterms(a)) and b[0] == "comp" and b[2][0] == "meth" and b[2][2] == "get_base" and b[3][0][1] == e6
-    (rep.proven if ok else rep.refuted)("R7.3", construct(f, "summation-set"), "" if ok else "summed variables must be the bases of the non-self-intervened nodes minus the bases of the event", loc(f))
-    f = model.func(f"{IS}.get_events_of_each_district")
-    ev = _ev(model, prims={f"{CG}.is_not_self_intervened", f"{IS}.get_events_of_district"})
-    g6, e6 = typed(ev, "graph", ("cls", NXMG)), typed(ev, "event", EVT)
-    r = return_paths(ev.run(f, {"graph": g6, "event": e6}))
-    ok = len(r) == 1 and r[0].value[0] == "comp" and r[0].value[1] == "dict"
-    if ok:
-        c = r[0].value
-        it = c[3][0][1]
-        ok = it[0] == "meth" and it[2] == "districts" and it[1][0] == "meth" and it[1][2] == "subgraph" and it[1][1] == g6 and kwargs_of(c[2][2]).get("graph") == g6 and kwargs_of(c[2][2]).get("district") == c[3][0][0]
-    (rep.proven if ok else rep.refuted)("R7.3", construct(f, "per-district"), "" if ok else "one sub-event per district of the non-self-intervened sub-graph, each computed against the FULL counterfactual graph", loc(f))
+    ge = {"graph": G, "event": EVT}
+    cge = {"cf_graph": G, "event": EVT}
+    table = [
+        ("R7.1", f"{IS}.id_star", "id_star_algorithm", ge, helpers, "figure-3-lines",
+         "ID* lines 1-9 in order: empty event -> 1; effectiveness violation -> 0; tautologies removed and recursion on the reduced event; "
+         "inconsistent counterfactual graph -> 0; disconnected -> Σ_free Π_districts ID*(G, event of the district) on the ORIGINAL graph; "
+         "conflict -> Unidentifiable; else line 9 on the non-self-intervened part"),
+        ("R7.2", f"{IS}.violates_axiom_of_effectiveness", "axiom_of_effectiveness_violated", {"event": EVT}, helpers, "different-value",
+         "line 2 fires iff some subscript of an event variable has the same base variable as the variable's value and a DIFFERENT value"),
+        ("R7.2", f"{IS}.is_redundant_counterfactual", "redundant", {"variable": V, "value": IV}, helpers, "equal-value",
+         "line 3 removes iff some subscript has the same base variable as the value and the SAME value"),
+        ("R7.2", f"{IS}.remove_event_tautologies", "without_tautologies", {"event": EVT}, helpers, "drops-exactly-the-tautologies",
+         "the reduced event keeps exactly the non-redundant entries, values unchanged"),
+        ("R7.3", f"{IS}.id_star_line_6", "line_6", cge, helpers, "summand-and-sub-events",
+         "line 6 returns the free variables and the events of each district of the same graph and event"),
+        ("R7.3", f"{IS}.get_free_variables", "free_variables", cge, helpers, "summation-set",
+         "summed variables are the bases of the non-self-intervened nodes minus the bases of the event"),
+        ("R7.3", f"{IS}.get_events_of_each_district", "events_of_each_district", ge, helpers, "per-district",
+         "one sub-event per district of the non-self-intervened sub-graph, each computed against the FULL counterfactual graph"),
+        ("R7.3", f"{IS}.get_events_of_district", "events_of_district", {"graph": G, "district": ("set", V), "event": EVT}, helpers, "pillow-subscripts",
+         "each district variable is reduced to its base and subscripted by the Markov pillow of its district; its value is the event's, else the default"),
+        ("R7.3", f"{IS}._get_node_event", "node_event", {"node": V, "event": EVT}, helpers, "value-of-node",
+         "a node's value is the event's value if it has one, else the non-starred value of its base"),
+        ("R7.5", f"{IS}.get_conflicts", "conflicts_of", cge, helpers, "conflict-test",
+         "a conflict is a subscript of the graph and a piece of evidence with the same name and different values"),
+        ("R7.5", f"{IS}.get_cf_interventions", "cf_interventions", {"nodes": ("iter", V)}, helpers, "all-subscripts",
+         "the subscripts of the counterfactual nodes, all of them"),
+        ("R7.5", f"{IS}.get_evidence", "evidence", {"event": EVT}, helpers, "values-and-subscripts",
+         "evidence = the event's values and the subscripts of its variables"),
+    ]
+    run_table(model, rep, table, "yvref.c07", mk, sa, construct=cons, loc=loc)
+    # ---------------------------------------------------------------- R7.4 values of the event in the subscripts (must-depend)
     f = model.func(f"{IS}.get_events_of_district")
-    ev = _ev(model, prims={f"{IS}._get_node_event"})
-    g6, d6, e6 = typed(ev, "graph", ("cls", NXMG)), typed(ev, "district", ("set", V)), typed(ev, "event", EVT)
+    ev = _ev(model)
+    g6, d6, e6 = typed(ev, "graph", G), typed(ev, "district", ("set", V)), typed(ev, "event", EVT)
     r = return_paths(ev.run(f, {"graph": g6, "district": d6, "event": e6}))
-    pillow = ("meth", g6, "get_markov_pillow", (), (("nodes", d6),))
-    withp = [x for x in r if any(c == ("truth", pillow) for c in x.conds)]
-    ok = len(withp) == 1
-    iv = None
-    if ok:
-        c = withp[0].value
-        key = c[2][1]
-        ok = c[0] == "comp" and key[0] == "meth" and key[2] == "intervene" and key[1][0] == "meth" and key[1][2] == "get_base"
-        iv = kwargs_of(key).get("variables") if ok else None
-        ok = ok and any(s == pillow for s in subterms(iv))
-    (rep.proven if ok else rep.refuted)("R7.3", construct(f, "pillow-subscripts"), "" if ok else "each district variable must be subscripted by the Markov pillow of its district", loc(f))
-    # ---------------------------------------------------------------- R7.4 values of the event in the subscripts
-    cons = construct(f, "subscripts-carry-values")
-    if iv is None:
-        rep.unknown("R7.4", cons, "intervention set not found", loc(f))
-    elif any(s == e6 for s in subterms(iv)):
-        rep.proven("R7.4", cons, loc=loc(f))
+    ivs = []
+    for x in r:
+        for s in subterms(x.value):
+            if s[0] == "meth" and s[2] == "intervene":
+                a = kwargs_of(s).get("variables") or (s[3][0] if s[3] else None)
+                if a is not None:
+                    ivs.append(a)
+    cons4 = construct(f, "subscripts-carry-values")
+    if not ivs:
+        rep.unknown("R7.4", cons4, "no subscripting (.intervene) found in the sub-events of a district", loc(f))
+    elif all(any(s == e6 for s in subterms(iv)) for iv in ivs):
+        rep.proven("R7.4", cons4, loc=loc(f))
     else:
-        rep.refuted("R7.4", cons, "the subscripts of a district's variables are built from the graph alone (the Markov pillow's bare variables, which become `-x` subscripts): for pillow "
+        rep.refuted("R7.4", cons4, "the subscripts of a district's variables are built from the graph alone (the Markov pillow's bare variables, which become `-x` subscripts): for pillow "
                     "variables the event assigns, the assigned value is lost, so {Y:-y, X:+x} and {Y:-y, X:-x} on X -> Y get the same sub-events and the same estimand P(X)·P[X](Y)", loc(f))
-    # ---------------------------------------------------------------- R7.5
-    f = model.func(f"{IS}.get_conflicts")
-    ev = _ev(model, prims={f"{IS}.get_cf_interventions", f"{IS}.get_evidence"})
-    g6, e6 = typed(ev, "cf_graph", ("cls", NXMG)), typed(ev, "event", EVT)
-    r = return_paths(ev.run(f, {"cf_graph": g6, "event": e6}))
-    ok = len(r) == 1 and r[0].value[0] == "comp"
-    if ok:
-        c = r[0].value
-        a, b = c[3][0][0][1]
-        want = f_and(sa.eq_atom(("attr", a, "name"), ("attr", b, "name")), f_not(sa.eq_atom(("attr", a, "star"), ("attr", b, "star"))))
-        got = f_and(*[sa.cond(k) for k in c[3][0][2]])
-        it = c[3][0][1]
-        ok = compare(got, want)[0] and it[0] == "call" and it[1].endswith("product") and {x[1] for x in it[2] if x[0] == "call"} == {f"{IS}.get_cf_interventions", f"{IS}.get_evidence"}
-    (rep.proven if ok else rep.refuted)("R7.5", construct(f, "conflict-test"), "" if ok else "a conflict is a subscript and a piece of evidence with the same name and different values", loc(f))
     # inherited
     c06.r6_4(model, rep)
     # line 6 subscripts every district by its Markov pillow: the pillow's own definition (C14 R14.2) is part of this property's cone
